@@ -11,16 +11,18 @@ open Ibx.Lemmas.Smtp Ibx.Lemmas.SmtpLoop Ibx.Lemmas.SmtpIO Ibx.Lemmas.SmtpEx
 
 /-! ### the reachable-state invariant -/
 
-/-- outside a transaction the envelope is empty; before the greeting there is no sender; an open transaction
+/-- outside a transaction the envelope is empty; before the greeting there is no sender (after an accepted STARTTLS
+    the session is in GREET again and `from` is whatever READY had left in it — a MAIL refused by the origin policy
+    records its sender without opening a transaction; the next accepted MAIL overwrites it); an open transaction
     has a sender; the data phase has at least one recipient -/
 def Inv (s : Sess) : Prop :=
   ((s.st = .greet ∨ s.st = .ready ∨ s.st = .login ∨ s.st = .password) → s.rcpts = []) ∧
-  (s.st = .greet → s.sender = none) ∧
+  (s.st = .greet → s.tls = false → s.sender = none) ∧
   ((s.st = .mail ∨ s.st = .data) → s.sender ≠ none) ∧
   (s.st = .data → s.rcpts ≠ [])
 
-theorem inv_init (b : Option Nat) : Inv (init b) ∧ Inv (start b) := by
-  simp [Inv, init, start]
+theorem inv_init (e : Env) (b : Option Nat) : Inv (init b) ∧ Inv (start e b) := by
+  simp [Inv, init, initFor, start]
 
 private theorem inv_step (e : Env) (s : Sess) (line : Bytes) (s' : Sess) (evs : List Ev) (hi : Inv s)
     (h : Step e s line s' evs) : Inv s' := by
@@ -38,6 +40,7 @@ private theorem inv_step (e : Env) (s : Sess) (line : Bytes) (s' : Sess) (evs : 
   case quit => simp [Inv]
   case helo hs _ => simp_all [Inv]
   case ehlo hs _ => simp_all [Inv]
+  case starttls hs _ _ => simp_all [Inv]
   case authLogin hs => simp_all [Inv]
   case mailOrigin hs _ => simp_all [Inv]
   case mailOk hs _ => simp_all [Inv]
@@ -71,15 +74,15 @@ theorem inv_reach (e : Env) (s : Sess) (g : List Addr.Recipient) (s' : Sess) (g'
 theorem inv_loop (e : Env) (b : Option Nat) (w : Bytes) :
     Inv (run e b w).2.1 ∧ ∀ ph ∈ runPhases e b w, Inv ph.sess := by
   constructor
-  · obtain ⟨s1, g1, hr, hf⟩ := loop_final_reach e (w.length + 2) (start b) [] w [.reply [220]]
-    have := inv_reach e _ _ _ _ (inv_init b).2 hr
+  · obtain ⟨s1, g1, hr, hf⟩ := loop_final_reach e (w.length + 2) (start e b) [] w [.reply [220]]
+    have := inv_reach e _ _ _ _ (inv_init e b).2 hr
     rw [run_eq]
     rcases hf with hf | hf <;> rw [hf]
     · exact this
     · simp [Inv]
   · intro ph hph
     obtain ⟨s1, hr, _, _, hsess, _⟩ := phases_reach e _ _ _ _ ph hph
-    have := inv_reach e _ _ _ _ (inv_init b).2 hr
+    have := inv_reach e _ _ _ _ (inv_init e b).2 hr
     rw [hsess]
     exact this
 
@@ -126,9 +129,9 @@ def resetOld (s : Sess) : Sess := { s with st := .ready, sender := none, rcpts :
 /-- counter-example for the old `reset`: RSET as the first command opened the session for MAIL, which was then
     accepted without any greeting -/
 theorem resetOld_skips_greeting :
-    (resetOld (start none)).st = .ready ∧
-    (handleLine exEnv (send (resetOld (start none)) 1) (ofAscii "MAIL FROM:<>") []).1.st = .mail ∧
-    (handleLine exEnv (send (reset (start none)) 1) (ofAscii "MAIL FROM:<>") []).2 = [.reply [503]] := by
+    (resetOld (start exEnv none)).st = .ready ∧
+    (handleLine exEnv (send (resetOld (start exEnv none)) 1) (ofAscii "MAIL FROM:<>") []).1.st = .mail ∧
+    (handleLine exEnv (send (reset (start exEnv none)) 1) (ofAscii "MAIL FROM:<>") []).2 = [.reply [503]] := by
   decide
 
 /-- a 250 to MAIL needs an earlier accepted HELO / EHLO: every path of the loop from the greeting state to a
@@ -220,9 +223,11 @@ example : (handleLine exEnv exMail (ofAscii "ehlo x\r\n") []).1.st = .ready := b
 
 /-! ### one reply per line -/
 
-/-- a single reply: one line with one code, the four-line 250 answer to EHLO, or a hook's own code and text -/
+/-- a single reply: one line with one code, the four-line 250 answer to EHLO (five lines when STARTTLS is
+    advertised), or a hook's own code and text -/
 def SingleReply (ev : Ev) : Prop :=
-  (∃ c, ev = .reply [c]) ∨ ev = .reply [250, 250, 250, 250] ∨ ∃ c m, ev = .hookReply c m
+  (∃ c, ev = .reply [c]) ∨ ev = .reply [250, 250, 250, 250] ∨ ev = .reply [250, 250, 250, 250, 250] ∨
+    ∃ c m, ev = .hookReply c m
 
 /-- every command line (in a state the loop reads lines in) appends exactly one reply — except the accepted
     DATA command, which appends nothing and enters the data phase (whose first event is the 354) -/
@@ -236,6 +241,7 @@ theorem one_reply_per_line (e : Env) (s : Sess) (line : Bytes) (acc : List Ev) (
   generalize (handleLine e s line []).2 = evs at *
   cases hstep <;> simp_all [SingleReply, reset_st]
   case rset => split <;> simp
+  case ehlo => rcases ehloLines_cases e s with h | h <;> simp [h, List.replicate]
 
 /-- the data phase opens with the 354, appends only stored / failed-delivery events and then exactly one reply
     (250, 451 or 552; nothing is stored before a 552) -/
@@ -251,7 +257,7 @@ theorem one_reply_per_data (e : Env) (s : Sess) (block : Bytes) (acc : List Ev) 
     · exact .inr ⟨x, h⟩
 
 example : (handleLine exEnv exMail (ofAscii "NOOP\r\n") []).2 = [.reply [250]] := by decide
-example : (handleLine exEnv (start none) (ofAscii "EHLO a\r\n") []).2 = [.reply [250, 250, 250, 250]] := by decide
+example : (handleLine exEnv (start exEnv none) (ofAscii "EHLO a\r\n") []).2 = [.reply [250, 250, 250, 250]] := by decide
 example : (handleData exEnv exMail (ofAscii "hi\n") []).2.length = 2 := by decide
 
 /-! ### totality -/
@@ -272,7 +278,7 @@ theorem total (e : Env) (b : Option Nat) (w : Bytes) : (run e b w).2.2 ≠ .outO
 
 /-- … and more fuel changes nothing -/
 theorem fuel_irrelevant (e : Env) (b : Option Nat) (w : Bytes) (fuel : Nat) (h : w.length < fuel) :
-    loop e fuel (start b) w [.reply [220]] = run e b w := by
+    loop e fuel (start e b) w [.reply [220]] = run e b w := by
   rw [run_eq]
   exact loop_fuel e _ _ _ _ _ h (by omega)
 
@@ -379,7 +385,7 @@ theorem cut_by_send_error (e : Env) (b : Nat) (w : Bytes) :
     runPhases e (some b) w <+: runPhases e none w ∧
     storedOf (run e (some b) w).1 <+: storedOf (run e none w).1 := by
   have h : runPhases e (some b) w <+: runPhases e none w := by
-    have := phases_erase_prefix e (w.length + 2) (start (some b)) [] w
+    have := phases_erase_prefix e (w.length + 2) (start e (some b)) [] w
     rw [erase_start] at this
     exact this
   refine ⟨h, ?_⟩
